@@ -304,3 +304,88 @@ def u_pareto_loop_index(ctx):
 @unit(P, "loop[is_pareto_efficient, mask form]", "A2", targets=[PARETO])
 def u_pareto_loop_mask(ctx):
     _pareto_loop(ctx, True)
+
+
+# ---------------------------------------------------------------------------------------------------
+# the memetic optimisers USE the dominance predicate: a hill climb replaces its leader exactly when the proposal dominates it, so the
+# leader it returns is not dominated (feasible points: Pareto; otherwise: smaller total violation) by any solution it evaluated
+ADDON = "pybrops/opt/algo/pymoo_addon.py"
+
+
+def _spec_dominates(o1, c1, o2, c2):
+    if c1 <= 0.0 and c2 <= 0.0:
+        return all(a <= b for a, b in zip(o1, o2)) and any(a < b for a, b in zip(o1, o2))
+    return c1 < c2
+
+
+def _climb_case(case):
+    """one seeded hill climb of the real MultiObjectiveStochasticHillClimberMutation on a table-driven problem; returns (bad, message)"""
+    import random as _random
+    import numpy as np
+    from pybrops.opt.algo.pymoo_addon import MultiObjectiveStochasticHillClimberMutation as M
+    rnd = _random.Random(case["seed"])
+    nset, k, nobj, regime = case["nset"], case["k"], case["nobj"], case["regime"]
+    setspace = np.arange(10, 10 + nset)
+    # additive per-element scores (small integers: ties and exact comparisons) and a constraint slack that is negative (satisfied,
+    # pymoo convention), around zero, or mostly positive
+    f = {int(e): [rnd.randrange(-3, 4) for _ in range(nobj)] for e in setspace}
+    base = {"slack": -6.0, "mixed": -1.0, "violated": 1.0}[regime]
+    g = {int(e): rnd.choice([-1.0, -0.5, 0.0, 0.5, 1.0]) for e in setspace}
+    seen = []
+
+    class Prob:
+        n_var, n_obj = k, nobj
+
+        def _evaluate(self, X, out, *a, **kw):
+            F = np.array([[float(sum(f[int(e)][j] for e in x)) for j in range(nobj)] for x in X])
+            G = np.array([[base + sum(g[int(e)] for e in x)] for x in X])
+            for x, fo, go in zip(X, F, G):
+                seen.append((tuple(int(v) for v in x), tuple(fo), float(go.sum())))
+            out["F"], out["G"] = F, G
+    x0 = np.array(rnd.sample([int(e) for e in setspace], k))
+    mut = M(setspace=setspace, p_hillclimb=1.0)
+    st = np.random.get_state()
+    np.random.seed(case["seed"] % (2 ** 31))
+    try:
+        res = mut.hillclimb(Prob(), x0.copy())
+    finally:
+        np.random.set_state(st)
+    res = [int(v) for v in np.asarray(res).ravel()]
+    if len(res) != k or len(set(res)) != k or not set(res) <= set(int(e) for e in setspace):
+        return True, "hill climb from %r returned %r: not a subset of %d distinct members of the set space" % (x0.tolist(), res, k)
+    mine = [s for s in seen if sorted(s[0]) == sorted(res)]
+    if not mine:
+        return True, "hill climb returned %r, a solution it never evaluated" % (res,)
+    _, lo, lc = mine[-1]
+    for sx, so, sc in seen:
+        if _spec_dominates(so, sc, lo, lc):
+            return True, ("hill climb from %r returned leader %r (objectives %r, total constraint value %r) although it evaluated %r "
+                          "(objectives %r, constraint value %r), which dominates it (both feasible: Pareto; otherwise smaller violation)"
+                          % (x0.tolist(), res, lo, lc, list(sx), so, sc))
+    return False, "ok"
+
+
+@unit(P, "ring[memetic hill climber accepts and rejects by the dominance predicate: its leader is never dominated by a solution it evaluated]",
+      "R", bounded=True, targets=[ADDON + ":MultiObjectiveStochasticHillClimberMutation.hillclimb", ADDON + ":dominates"],
+      note="bounded: 600 (thorough 12000) seeded climbs, set space <=9, subsets <=4, 1-3 objectives with small integer scores (ties), one "
+           "inequality constraint reported with its signed slack in three regimes (always satisfied with slack, mixed, mostly violated)")
+def u_ring_climb(ctx):
+    ctx.rule = ("seeded table-driven problems; numpy's global generator is seeded per case and restored; non-trivial if the climb evaluated "
+                "at least two different solutions; distinct by the full case")
+    n = 600 if ctx.tier == "quick" else 12000
+    for c in range(n):
+        k = ctx.rng.choice([1, 2, 3, 4])
+        case = dict(seed=ctx.rng.randrange(10 ** 9), nset=ctx.rng.randrange(k + 1, 10), k=k, nobj=ctx.rng.choice([1, 2, 2, 3]),
+                    regime=ctx.rng.choice(["slack", "slack", "mixed", "violated"]))
+        try:
+            bad, msg = _climb_case(case)
+        except Exception as e:
+            bad, msg = True, "exception %s: %s" % (type(e).__name__, e)
+        ctx.case(repr(sorted(case.items())), nontrivial=True, sample=case if c < 3 else None)
+        if bad:
+            ctx.fail_input("ring:memetic-climb:leader-dominated", case, cls="memetic-climb", message=msg)
+            if len(ctx.failures) >= 3:
+                break
+
+
+REPLAYERS["ring[memetic hill climber accepts and rejects by the dominance predicate: its leader is never dominated by a solution it evaluated]"] = _climb_case
